@@ -10,8 +10,8 @@
    never hang, no effect on other segments" for files WITHOUT checksums (.bsu, .cmi,
    .sst, .sfm, segmeta.json, pqmr, metrics blocks) is established by fault enumeration
    on the real code (harness c18), not by proof. *)
-From SigM Require Import Base Crc32 ChecksumFile MetaDecoders.
-From SigP Require Import BaseProofs Crc32Proofs ChecksumFileProofs MetaDecodersProofs.
+From SigM Require Import Base Crc32 ChecksumFile MetaDecoders BufPool.
+From SigP Require Import BaseProofs Crc32Proofs ChecksumFileProofs MetaDecodersProofs BufPoolProofs.
 Open Scope N_scope.
 
 (* What the writer wrote is read back: every chunking a ++ m ++ b of the data (chunks
@@ -238,3 +238,30 @@ Theorem C18_prefix_bloom_zero_m_refuted :
   exists (b : list N) h, fst (read_bloom false b) = DOk h /\ bl_m h = 0 /\ fst (read_bloom true b) = DErr.
 Proof. exact bloom_prefix_zero_m_refuted. Qed.
 Print Assumptions C18_prefix_bloom_zero_m_refuted.
+
+(* ================= ownership of the pooled read buffers (SigM.BufPool) =================
+   The readers of all segments take their block buffers from process-wide pools
+   (segreader.GetBufFromPool / PutBufToPool over pkg/memorypool).  "Damage in one segment does
+   not affect results from others" needs, beyond the chunk layer, that a buffer is never in
+   the fields of two readers.  Operations of a reader: Need (field nil: Get), Swap (too small:
+   Put + Get), Fail (a read failed: NOTHING is released), Close (Put, reader gone). *)
+
+(* for EVERY sequence of operations of any number of readers *)
+Theorem C18_pooled_buffer_never_shared : forall (ops : list pop) (r1 r2 b : nat),
+  In (r1, b) (holds (prun false ops)) -> In (r2, b) (holds (prun false ops)) -> r1 = r2.
+Proof. exact buffer_never_shared. Qed.
+Print Assumptions C18_pooled_buffer_never_shared.
+
+(* ... and a buffer a reader still holds is marked in use: Get cannot hand it out *)
+Theorem C18_held_buffer_marked_in_use : forall (ops : list pop) (r b : nat),
+  In (r, b) (holds (prun false ops)) -> nth b (pool (prun false ops)) false = true.
+Proof. exact held_buffer_in_use. Qed.
+Print Assumptions C18_held_buffer_marked_in_use.
+
+(* REFUTED VARIANT "release without forget" (a failure path that does Put(field) and keeps the
+   field): reader 0 takes a buffer, its read fails, reader 1 asks for a buffer -> both hold buffer 0 *)
+Theorem C18_release_without_forget_refuted :
+  exists (ops : list pop) (r1 r2 b : nat), r1 <> r2 /\
+    In (r1, b) (holds (prun true ops)) /\ In (r2, b) (holds (prun true ops)).
+Proof. exact release_without_forget_refuted. Qed.
+Print Assumptions C18_release_without_forget_refuted.
